@@ -14,8 +14,8 @@ RANDOM = {"ƈ", "ṁ", "ÞB", "℅"}
 # documented `vectorise: true` but the documented overload takes the list whole ("any" = a list function)
 LIST_FUNCTIONS = {
     "¯": "deltas: (any) is a list function; it never maps over the items",
-    "Þ∴": "documented lst-lst element-wise maximum: defined on lists only (no scalar overload to bottom out in)",
-    "Þ∵": "documented lst-lst element-wise minimum: defined on lists only",
+    "Þ∴": "documented lst-lst only: checked separately (section element_wise_minmax) against its scalar form ∴",
+    "Þ∵": "documented lst-lst only: checked separately (section element_wise_minmax) against its scalar form ∵",
 }
 
 
@@ -269,9 +269,41 @@ def _shard(args):
     return part.data()
 
 
+def _minmax_shard(args):
+    """Þ∴ / Þ∵ are documented `vectorise: true` with the single overload lst-lst: two flat lists are paired position by
+    position (Vectorisation.md: through vy_zip, i.e. the shorter list is filled with 0) and ∴ / ∵ is applied to each pair."""
+    key, base, form, tier = args
+    part = explore.Partial()
+    dom = [-1, 0, 2, 3, Fraction(1, 2)]
+    maxlen = 3 if tier == "quick" else 4
+    lists = [list(p) for n in range(0, maxlen + 1) for p in itertools.product(dom if n <= 2 else (0, 3, -1), repeat=n)]
+    for a in lists:
+        for b in lists:
+            try:
+                want = [scalar(base, [x, y]) for x, y in itertools.zip_longest(a, b, fillvalue=0)]
+            except OutOfDomain:
+                part.skip("scalar call raises")
+                continue
+            args2 = [lazify(a) if form == "lazy" else a, lazify(b) if form == "lazy" else b]
+            part.count()
+            got = call(key, args2)
+            part.outcome((key, len(a), len(b)))
+            if got != ("ok", want):
+                rel = "equal" if len(a) == len(b) else ("left shorter" if len(a) < len(b) else "right shorter")
+                part.violation("vectorise", {"element": key, "args": [a, b], "shape": "LL", "form": form},
+                               "vectorising element does not act element-wise",
+                               {"element": key, "shape": "LL", "form": form, "lengths": rel,
+                                "what": "raises" if got[0] == "raise" else "wrong value"}, want, got[1], size=len(repr([a, b])))
+    part.section("element_wise_minmax", cases=part.d["evaluations"])
+    return part.data()
+
+
 def run(tier, seed):
     rep = Report(PROP, tier, seed, "exploration")
     cur, excluded = curated()
+    SIGS["∴"] = [["num", "num"]]
+    SIGS["∵"] = [["num", "num"]]
+    explore.pmap(_minmax_shard, [(k, b, f, tier) for k, b in (("Þ∴", "∴"), ("Þ∵", "∵")) for f in ("eager", "lazy")], rep, seed)
     keys = sorted(cur)
     shards = [(k, sh, form, tier) for k in keys for sh, why in cur[k][1].items() if why is None for form in ("eager", "lazy")]
     explore.pmap(_shard, shards, rep, seed)
